@@ -301,3 +301,22 @@ Example C03_slice_assign_two_at_front :
   end = ([[111]; [65]; []; [32]; [88]; [44]; [32]; [89]; [44]; [32]; [66;66;66]; []; [10]],
          [(50, 50); (51, 51); (8, 8)], Ok tt).
 Proof. vm_compute. reflexivity. Qed.
+
+(* the invariant is satisfiable: `open Assets:Foo  AAA, BBB`, and a two-call history on it *)
+Example C03_layout_nonvacuous : layout_b 3 ex_doc ex_items = true.
+Proof. vm_compute. reflexivity. Qed.
+
+Example C03_history_nonvacuous :
+  exists s', Hist 3 ex_seps ex_sepsb (mkst ex_doc ex_items)
+               [RInsert (-1) ex_v 100; RPop 7] s' /\ map fst (s_items s') = [5; 50; 8].
+Proof.
+  eexists. split.
+  - eapply H_ok; [| vm_compute; reflexivity |].
+    + split; [|reflexivity]. repeat split.
+      * repeat constructor; discriminate.
+      * intros x Hx. cbn in Hx. intuition lia.
+      * intros x Hx. cbn in Hx. intuition lia.
+      * repeat constructor; cbn; intuition lia.
+    + eapply H_err; [exact I | vm_compute; reflexivity | apply H_nil].
+  - reflexivity.
+Qed.
